@@ -129,6 +129,8 @@ impl Cfg {
 /// What happened when an event was first handed to a client.
 #[derive(Clone, Debug)]
 pub struct DeliveryRec {
+    /// global delivery sequence number of the first hand-over
+    pub first_seq: usize,
     pub count: usize,
     pub first_step: usize,
     /// client state when first handed over
@@ -257,6 +259,9 @@ pub struct RelayEvent {
     pub other_group: bool,
     /// the members of the group as the author saw them when it created the event
     pub roster_at_send: Vec<String>,
+    /// application messages: position in the sender's ratchet for that epoch (how many
+    /// application messages the author had created in the same state before this one)
+    pub generation: Option<u32>,
 }
 
 #[derive(Clone, Debug)]
@@ -445,6 +450,9 @@ pub enum Op {
         sel: u16,
         mutation: HostileMut,
     },
+    /// `n` application messages by one member in a row (so that deliveries can skip far ahead in
+    /// the sender's ratchet)
+    Burst { m: u16, n: u8 },
     /// traffic of / confusion with the second group
     Side(SideOp),
     /// client `m` creates a further group of its own (no other members). With `collide` the relay
@@ -1057,6 +1065,16 @@ impl World {
             base.as_ref().map(|b| b.short()).unwrap_or_default(),
             ev.created_at.as_secs().saturating_sub(self.t0)
         ));
+        let generation = if class == Class::App {
+            Some(
+                self.relay
+                    .iter()
+                    .filter(|e| e.class == Class::App && e.author == author && e.base == base && e.replay_of.is_none() && e.generation.is_some())
+                    .count() as u32,
+            )
+        } else {
+            None
+        };
         self.relay.push(RelayEvent {
             ev,
             author,
@@ -1073,6 +1091,7 @@ impl World {
             replay_of: None,
             other_group: false,
             roster_at_send: roster,
+            generation,
         });
         idx
     }
@@ -1374,7 +1393,7 @@ impl World {
                                 .filter_map(|h| nostr::PublicKey::from_hex(h).ok())
                                 .collect(),
                         );
-                        what = format!("toggle-admin-{}", &target[..6]);
+                        what = format!("toggle-admin-{}", crate::fingerprint::sh(&target, 6));
                     }
                 }
                 self.set_ts(*ts);
@@ -1745,6 +1764,19 @@ impl World {
                     }
                 }
             }
+            Op::Burst { m, n } => {
+                let Some(who) = self.active_sel(*m) else {
+                    return Ok(());
+                };
+                // the same member every time: find a selector that maps to it
+                let a = self.active_actors();
+                let pos = a.iter().position(|x| *x == who).unwrap_or(0);
+                let sel = (((pos as u32) << 16) / a.len().max(1) as u32 + 1) as u16;
+                self.count("op:burst");
+                for i in 0..(*n).clamp(2, 16) {
+                    self.apply_op(&Op::Msg { m: sel, kind: 0, at: i % 3, tag: 0 }, obs)?;
+                }
+            }
             Op::Side(sop) => {
                 self.apply_side_op(sop, obs)?;
             }
@@ -1845,6 +1877,7 @@ impl World {
                     named.added.extend(self.relay[d].named.proposes_add.clone());
                 }
             }
+            K::MalformedIdentity(_) => named.identity_change = true,
             K::SelfUpdate | K::Empty => {}
         }
         let built = on_mdk!(self.clients[m].mdk(), mm => crate::rogue::build_commit(mm, &gid, kind, tgt.as_deref(), kp));
@@ -1861,7 +1894,7 @@ impl World {
             Err(_) => return,
         };
         let deps = if kind == K::PendingByRef { self.clients[m].pending_props.clone() } else { vec![] };
-        let idx = self.publish(m, Class::Commit, base, deps, ev, None, format!("rogue commit {kind:?} by {}", &own[..6]), false);
+        let idx = self.publish(m, Class::Commit, base, deps, ev, None, format!("rogue commit {kind:?} by {}", crate::fingerprint::sh(&own, 6)), false);
         self.relay[idx].named = named;
         self.count(&format!("rogue:commit:{kind:?}"));
     }
@@ -1903,7 +1936,7 @@ impl World {
             }
         };
         let Ok(ev) = crate::rogue::wrap_445(&built.secret, &built.nostr_group_id, &built.mls_bytes, self.t0 + ts as u64) else { return };
-        let idx = self.publish(m, Class::Proposal, base, vec![], ev, None, format!("rogue proposal {kind:?} by {}", &own[..6]), false);
+        let idx = self.publish(m, Class::Proposal, base, vec![], ev, None, format!("rogue proposal {kind:?} by {}", crate::fingerprint::sh(&own, 6)), false);
         self.relay[idx].named = named;
         self.count(&format!("rogue:proposal:{kind:?}"));
     }
@@ -2060,6 +2093,7 @@ impl World {
         self.relay[idx].named = e.named.clone();
         self.relay[idx].forged = e.forged.clone();
         self.relay[idx].replay_of = Some(src);
+        self.relay[idx].generation = self.relay[src].generation;
         self.count("rogue:replay");
     }
 
@@ -2312,6 +2346,7 @@ impl World {
         if matches!(mutation, H::BackdatedCopy | H::HUpperCase) {
             // the payload itself is genuine
             self.relay[idx].replay_of = Some(src);
+            self.relay[idx].generation = self.relay[src].generation;
             self.relay[idx].rumor = e.rumor.clone();
             self.relay[idx].class = e.class;
             self.relay[idx].named.added = e.named.added.clone();
@@ -2466,6 +2501,7 @@ impl World {
                     d.last_outcome = outcome.clone();
                 })
                 .or_insert(DeliveryRec {
+                    first_seq: self.delivery_seq,
                     count: 1,
                     first_step: step,
                     first_state: before_key.clone(),
